@@ -65,6 +65,7 @@ type Op struct {
 	// save: only the didSave message (with Text if set); the disk write is a separate fswrite op
 	// (C10's sequential references place the editor's disk write and its notification independently)
 	NoWrite bool          `json:"nowrite,omitempty"`
+	Spell   int           `json:"spell,omitempty"` // how this message spells the document URI: 0 percent-encoded like VS Code, 1 not encoded at all, 2 encoded with %5C for the separators below the root, 3 raw with backslashes below the root
 	Faults  []simfs.Fault `json:"faults,omitempty"`
 	Net     string        `json:"net,omitempty"` // deliver:<json> | readerr | faildial:<n> | failwrite:<n>
 }
